@@ -117,8 +117,18 @@ def translate(cond, key, env):
             return {ast.Lt: ln < r.value, ast.LtE: ln <= r.value, ast.Gt: ln > r.value, ast.GtE: ln >= r.value, ast.Eq: ln == r.value,
                     ast.NotEq: ln != r.value}[type(op)]
     if isinstance(cond, ast.Call) and isinstance(cond.func, ast.Attribute) and isinstance(cond.func.value, ast.Name) and cond.func.value.id == "key" \
-            and cond.func.attr == "startswith" and isinstance(cond.args[0], ast.Constant):
-        return z3.PrefixOf(z3.StringVal(cond.args[0].value), key)
+            and cond.func.attr in ("startswith", "endswith") and len(cond.args) == 1:
+        mk = (lambda v: z3.PrefixOf(z3.StringVal(v), key)) if cond.func.attr == "startswith" else (lambda v: z3.SuffixOf(z3.StringVal(v), key))
+        if isinstance(cond.args[0], ast.Constant) and isinstance(cond.args[0].value, str):
+            return mk(cond.args[0].value)
+        # str.startswith / endswith of a tuple of strings (a literal or a name bound to a collection of literals)
+        try:
+            vals = _literal_strings(cond.args[0], env)
+        except _Stateful as st:
+            kind, vals = external_container(env["__fn__"], st.name)
+            if kind != "const":
+                raise Unsupported("prefix test against a mutable container %s" % st.name)
+        return z3.Or(*[mk(v) for v in vals]) if vals else z3.BoolVal(False)
     if isinstance(cond, ast.Constant) and isinstance(cond.value, bool):
         return z3.BoolVal(cond.value)
     raise Unsupported("condition %s" % ast.dump(cond)[:80])
@@ -183,6 +193,17 @@ def check_unknown_keys_warn(fn, documented, loop_index=0, timeout_ms=20000, extr
         detail = ""
         if r == "sat":
             detail = s.model()[key].as_string() if s.model()[key] is not None else ""
+        elif r != "unsat":
+            # the string solver gave up: look for a model among strings built from the literals of the formula (each literal
+            # with a character added in front or behind, or dropped) - a candidate is accepted only if the *ground* formula
+            # simplifies to true, i.e. it is a checked model of the query
+            cands = ["zz"]
+            for v in sorted(listed):
+                cands += [v + "_x", v + "2", "x_" + v, v[:-1]]
+            for c in cands:
+                if c and z3.is_true(z3.simplify(z3.substitute(goal, (key, z3.StringVal(c))))):
+                    r, detail = "sat", c
+                    break
         out.append(("%s: %s%s" % (fn.__name__, oid, (" (for any contents of %s left by earlier calls)" % ", ".join(state)) if state else ""),
                     {"unsat": "discharged", "sat": "candidate"}.get(r, "inconclusive"), detail, s.to_smt2(), time.time() - t0))
     if cat is None or "RuntimeWarning" not in cat:
